@@ -7,12 +7,20 @@
 // Oracle: a map key->value plus the independent reference root of
 // verifharness/ref/mptref (own RLP, own hex-prefix, x/crypto Keccak; validated
 // at start-up against the published Ethereum trie vectors).
-//   (a) Hash()/Commit() == reference root of the current content
-//   (b) TryGet == last value written (absent after delete / empty write)
-//   (c) iteration == exactly the live pairs, each once, bytewise ascending for
-//       keys that are not prefixes of one another, one fixed relative order for
-//       prefix-related keys (identical on re-iteration, after reopen, and
-//       whenever the same two keys are met again in the history).
+//
+//	(a) Hash()/Commit() == reference root of the current content
+//	(b) TryGet == last value written (absent after delete / empty write)
+//	(c) iteration == exactly the live pairs, each once, bytewise ascending for
+//	    keys that are not prefixes of one another, one fixed relative order for
+//	    prefix-related keys (identical on re-iteration, after reopen, and
+//	    whenever the same two keys are met again in the history).
+//	(d) iteration that starts at a key (Trie.NodeIterator(start), the path of
+//	    AccountDB.DataIterator(addr, prefix)) == exactly the live pairs with
+//	    key >= start, in the order of the full iteration; tried for existing
+//	    keys, proper prefixes (where a branch/extension sits), keys between two
+//	    neighbours, below the first, above the last, extensions of keys and
+//	    deleted keys, on the live trie and right after every reopen.
+//
 // The code under test runs in child processes (one shard of the case list per
 // child); every case is logged before it is executed.
 package main
@@ -93,6 +101,9 @@ type exhMemo struct {
 	valIdx map[string]int
 	digits [4]int
 	table  [81]*refInfo
+	tick   int              // history ordinal: the iterate-from-start checks run on every 6th history
+	rot    int              // rotation of the start keys tried right after a reopen
+	starts map[int][][]byte // start keys per subset of universe keys occurring in a history
 }
 
 type refInfo struct {
@@ -280,6 +291,307 @@ func (e *exec) fullCheck() *fail {
 	if !sameSeq(s1, s2) {
 		return &fail{Sig: "C02:iterate:nondeterministic", What: "two consecutive iterations of the same trie returned different sequences"}
 	}
+	if e.memo != nil && e.memo.tick%6 != 0 {
+		return nil
+	}
+	for _, s := range e.startKeys(s1) {
+		if f := e.iterFromCheck(s, s1); f != nil {
+			return f
+		}
+	}
+	return nil
+}
+
+// ---------------------------------------------------------------------------
+// iteration that starts at a key: Trie.NodeIterator(start)
+
+func lcp(a, b []byte) int {
+	i := 0
+	for i < len(a) && i < len(b) && a[i] == b[i] {
+		i++
+	}
+	return i
+}
+
+func cat(a []byte, b ...byte) []byte { return append(append([]byte{}, a...), b...) }
+
+// betweenCand returns a key strictly between k1 < k2 (bytewise), or nil.
+func betweenCand(k1, k2 []byte) []byte {
+	if n := len(k2); n > 0 {
+		var s []byte
+		if k2[n-1] > 0 {
+			s = cat(k2[:n-1], k2[n-1]-1)
+		} else {
+			s = cat(k2[:n-1])
+		}
+		if bytes.Compare(k1, s) < 0 && bytes.Compare(s, k2) < 0 {
+			return s
+		}
+	}
+	if s := cat(k1, 0x00); bytes.Compare(s, k2) < 0 {
+		return s
+	}
+	return nil
+}
+
+// belowCand returns a key bytewise below first, or nil for the empty key.
+func belowCand(first []byte) []byte {
+	n := len(first)
+	if n == 0 {
+		return nil
+	}
+	if first[n-1] > 0 {
+		return cat(first[:n-1], first[n-1]-1)
+	}
+	return cat(first[:n-1])
+}
+
+// aboveCand returns a key bytewise above last and above every key starting with last's bytes up to the bumped one.
+func aboveCand(last []byte) []byte {
+	for i, b := range last {
+		if b != 0xff {
+			return cat(last[:i], b+1)
+		}
+	}
+	return cat(last, 0xff)
+}
+
+func addStart(out *[][]byte, s []byte) {
+	for _, o := range *out {
+		if bytes.Equal(o, s) {
+			return
+		}
+	}
+	*out = append(*out, s)
+}
+
+// allStarts: every structurally interesting start key around a small sorted key set.
+func allStarts(keys [][]byte) [][]byte {
+	var out [][]byte
+	addStart(&out, nil)
+	for i, k := range keys {
+		addStart(&out, k)
+		for _, l := range []int{1, len(k) / 2, len(k) - 1} {
+			if l >= 1 && l < len(k) {
+				addStart(&out, cat(k[:l]))
+			}
+		}
+		if i+1 < len(keys) {
+			if l := lcp(k, keys[i+1]); l >= 1 {
+				addStart(&out, cat(k[:l]))
+			}
+			if s := betweenCand(k, keys[i+1]); s != nil {
+				addStart(&out, s)
+			}
+		}
+		addStart(&out, cat(k, 0x00))
+		addStart(&out, cat(k, 0xff))
+	}
+	if len(keys) > 0 {
+		if s := belowCand(keys[0]); s != nil {
+			addStart(&out, s)
+		}
+		addStart(&out, aboveCand(keys[len(keys)-1]))
+	}
+	return out
+}
+
+// startKeys proposes the start keys for the current state. It is a pure
+// function of the history's key universe and the live content (so a replayed
+// or minimised history tries the same keys for the same content).
+func (e *exec) startKeys(full []pair) [][]byte {
+	if e.memo != nil { // exhaustive tier: the complete list for the (<= 4) keys of this history
+		mask := 0
+		for _, k := range e.uni {
+			mask |= 1 << uint(e.memo.keyIdx[string(k)])
+		}
+		if e.memo.starts == nil {
+			e.memo.starts = map[int][][]byte{}
+		}
+		st, ok := e.memo.starts[mask]
+		if !ok {
+			st = allStarts(e.uni)
+			e.memo.starts[mask] = st
+		}
+		return st
+	}
+	live := make([][]byte, len(full))
+	x := uint64(1469598103934665603)
+	for i, p := range full {
+		live[i] = p.k
+	}
+	sort.Slice(live, func(i, j int) bool { return bytes.Compare(live[i], live[j]) < 0 })
+	for _, k := range live {
+		for _, c := range k {
+			x = (x ^ uint64(c)) * 1099511628211
+		}
+		x = (x ^ 0x1ff) * 1099511628211
+	}
+	next := func(n int) int {
+		x ^= x << 13
+		x ^= x >> 7
+		x ^= x << 17
+		return int(x % uint64(n))
+	}
+	var out [][]byte
+	n := len(live)
+	if len(e.uni) > 0 {
+		addStart(&out, e.uni[next(len(e.uni))]) // a key of the history, live or deleted
+	}
+	if n == 0 {
+		addStart(&out, []byte{0x80})
+	} else {
+		addStart(&out, live[next(n)])
+		addStart(&out, live[next(n)])
+		if k := live[next(n)]; len(k) >= 2 {
+			addStart(&out, cat(k[:1+next(len(k)-1)])) // a proper prefix
+		}
+		for r := 0; r < 2 && n >= 2; r++ {
+			i := next(n - 1)
+			if l := lcp(live[i], live[i+1]); l >= 1 {
+				addStart(&out, cat(live[i][:l])) // where two neighbours part: a branch/extension sits here
+			}
+			if s := betweenCand(live[i], live[i+1]); s != nil {
+				addStart(&out, s)
+			}
+		}
+		if s := belowCand(live[0]); s != nil {
+			addStart(&out, s)
+		}
+		addStart(&out, aboveCand(live[n-1]))
+		addStart(&out, cat(live[next(n)], byte(next(256))))
+		addStart(&out, cat(live[next(n)], 0x00))
+		if next(4) == 0 {
+			addStart(&out, nil)
+		}
+	}
+	if len(e.uni) <= 4 {
+		for _, s := range allStarts(e.uni) {
+			addStart(&out, s)
+		}
+	}
+	return out
+}
+
+// countStartCategories classifies a start key against the live keys (categories overlap).
+func (e *exec) countStartCategories(start []byte, full []pair) {
+	if len(start) == 0 {
+		e.st["iter_from_empty_start"]++
+		return
+	}
+	if len(full) == 0 {
+		e.st["iter_from_on_empty_trie"]++
+		return
+	}
+	existing, prefix, ext, below, above := false, false, false, true, true
+	for _, p := range full {
+		switch {
+		case bytes.Equal(p.k, start):
+			existing = true
+		case isPrefix(start, p.k):
+			prefix = true
+		case isPrefix(p.k, start) && len(p.k) > 0:
+			ext = true
+		}
+		if c := bytes.Compare(p.k, start); c <= 0 {
+			below = false
+		} else {
+			above = false
+		}
+	}
+	if existing {
+		e.st["iter_from_existing_key"]++
+		return
+	}
+	if prefix {
+		e.st["iter_from_proper_prefix_of_key"]++
+	}
+	if ext {
+		e.st["iter_from_extension_of_key"]++
+	}
+	switch {
+	case below:
+		e.st["iter_from_below_first"]++
+	case above && !prefix:
+		e.st["iter_from_above_last"]++
+	case !prefix:
+		e.st["iter_from_between_neighbours"]++
+	}
+}
+
+// iterFromCheck: the pairs iterated from start must be exactly the live pairs
+// with key >= start, in the order the (already verified) full iteration gives.
+// key >= start is bytewise. Live keys that are proper prefixes of start are
+// bytewise smaller but sort after start in the trie's terminator order; they
+// are judged by their position relative to start in the full iteration when
+// start is itself live, and are not judged (either way) when it is not.
+func (e *exec) iterFromCheck(start []byte, full []pair) *fail {
+	e.st["iter_from_checks"]++
+	e.countStartCategories(start, full)
+	it := trie.NewIterator(e.t.NodeIterator(start))
+	var obs []pair
+	obsAt := map[string]int{}
+	for it.Next() {
+		k := append([]byte{}, it.Key...)
+		if _, dup := obsAt[string(k)]; dup {
+			return &fail{Sig: "C02:iter-from:extra-pair", What: fmt.Sprintf("iteration from %x returned key %x twice", start, k)}
+		}
+		obsAt[string(k)] = len(obs)
+		obs = append(obs, pair{k, append([]byte{}, it.Value...)})
+		if len(obs) > len(full)+4 {
+			return &fail{Sig: "C02:iter-from:extra-pair", What: fmt.Sprintf("iteration from %x produced more than %d leaves for %d live pairs", start, len(obs)-1, len(full))}
+		}
+	}
+	if it.Err != nil {
+		return &fail{Sig: "C02:iter-from:error", What: fmt.Sprintf("iteration from %x: %v", start, it.Err)}
+	}
+	e.st["iter_from_pairs"] += int64(len(obs))
+	posS := -1
+	for i, p := range full {
+		if bytes.Equal(p.k, start) {
+			posS = i
+		}
+	}
+	var exp []pair
+	for i, p := range full {
+		switch {
+		case bytes.Compare(p.k, start) >= 0:
+			exp = append(exp, p)
+		case isPrefix(p.k, start): // proper prefix of start
+			if posS >= 0 {
+				if i > posS {
+					exp = append(exp, p)
+				}
+			} else {
+				e.st["iter_from_unjudged_prefix_keys"]++
+				if _, there := obsAt[string(p.k)]; there {
+					exp = append(exp, p)
+				}
+			}
+		}
+	}
+	expAt := map[string]int{}
+	for i, p := range exp {
+		expAt[string(p.k)] = i
+	}
+	for _, p := range obs {
+		i, ok := expAt[string(p.k)]
+		if !ok {
+			return &fail{Sig: "C02:iter-from:extra-pair", What: fmt.Sprintf("iteration from %x returned key %x which is not a live key >= start (%d live pairs)", start, p.k, len(full))}
+		}
+		if !bytes.Equal(exp[i].v, p.v) {
+			return &fail{Sig: "C02:iter-from:extra-pair", What: fmt.Sprintf("iteration from %x returned %x -> %x, last write was %x", start, p.k, p.v, exp[i].v)}
+		}
+	}
+	for _, p := range exp {
+		if _, ok := obsAt[string(p.k)]; !ok {
+			return &fail{Sig: "C02:iter-from:missing-pair",
+				What: fmt.Sprintf("iteration from %x returned %d of the %d live pairs with key >= start; %x is missing (full iteration has %d pairs)", start, len(obs), len(exp), p.k, len(full))}
+		}
+	}
+	if !sameSeq(obs, exp) {
+		return &fail{Sig: "C02:iter-from:order", What: fmt.Sprintf("iteration from %x returned the right pairs in another order than the full iteration", start)}
+	}
 	return nil
 }
 
@@ -358,6 +670,19 @@ func (e *exec) reopened(root common.Hash, before []pair) *fail {
 	}
 	if !sameSeq(before, after) {
 		return &fail{Sig: "C02:iterate:nondeterministic", What: "iteration order of the same content differs before and after commit+reopen"}
+	}
+	// iterate from start keys on the freshly reopened trie (every node still has to be resolved from the database)
+	starts := e.startKeys(after)
+	if e.memo != nil && len(starts) > 2 {
+		e.memo.rot++
+		o := (e.memo.rot * 2) % len(starts)
+		starts = [][]byte{starts[o], starts[(o+1)%len(starts)]}
+	}
+	for _, s := range starts {
+		e.st["iter_from_after_reopen"]++
+		if f := e.iterFromCheck(s, after); f != nil {
+			return f
+		}
 	}
 	return nil
 }
@@ -1030,6 +1355,7 @@ func childMain(args []string) {
 				cb, _ := json.Marshal(c)
 				r.CaseBegin(cb)
 				h := genExh(u, L, seq, v)
+				memo.tick = int(seq) + v
 				evals++
 				cs.st["histories_exh"]++
 				if f := run(&h, cs.st, memo); f != nil {
@@ -1192,15 +1518,20 @@ func main() {
 			"over 3 four-key universes (short keys with a prefix pair and a 32-byte-RLP leaf; 32-byte slot keys sharing 62/63 nibbles; empty key + prefix chain), each with: %s; root + get checked after every op, full get/iterate at the end. "+
 			"sampled part: %d seeded histories of 20-80 ops (+drain) over per-history key universes (tiny nibble alphabets len 0-3; prefix chains incl. the node's own 1-byte / 9-byte key shapes; 20- and 32-byte keys sharing long prefixes; mixed), "+
 			"values of 1 (incl. 0x00/0x7f/0x80/0xc0), 2-34, 31-33, 55, 56, 300, 20, 8 bytes; half of them with Hash()+get after every mutation, half only at explicit hash/commit/reopen/check ops; <=64 live keys. "+
+			"iteration from a start key: at every full check and right after every reopen (exhaustive part: every 6th history all, after reopen 2 rotating) the pairs from NodeIterator(start) must be exactly the live pairs with key >= start in full-iteration order, "+
+			"for start = existing / deleted keys, proper prefixes, where two neighbours part, strictly between neighbours, below first, above last, key+0x00 / key+0xff / key+random byte, empty start. "+
 			"Non-trivial: the history passed through >=1 branch collapse (reference trie lost a branch node on a delete) and >=1 commit+reopen. distinct_nontrivial = distinct random histories (hash of the op list) + exhaustive histories (distinct by construction: universe, sequence index, variant)", L, L, variantText, nRandom),
 		Assumptions: []string{
 			"reference root: verifharness/ref/mptref, built from the sorted content, self-checked at start-up against the published Ethereum RLP / hex-prefix / Keccak / trietest + trieanyorder vectors",
 			"'ascending key order' is read as: bytewise ascending for keys that are not prefixes of one another; one fixed relative order for prefix-related keys (DESIGN C02)",
+			"iteration from start: key >= start is bytewise; live keys that are proper prefixes of start (bytewise smaller, but after start in the trie's terminator order) are judged by their position relative to start in the full iteration when start is live and are not judged when it is not (counter iter_from_unjudged_prefix_keys)",
 			"the store is the in-memory MemDatabase; durability on LevelDB is C03's subject",
 		},
 		MustObserve: []string{"reference_selfcheck_vectors", "root_checks", "get_checks", "iterate_checks", "full_checks", "op_put", "op_del", "op_pute", "op_commit",
 			"op_rdisk", "op_rmem", "op_limit", "op_cap", "branch_collapses", "branch_splits", "branch_value_added", "branch_value_removed",
 			"contents_with_embedded_nodes", "contents_with_hashed_nodes", "ref_nodes_len31", "ref_nodes_len32", "iter_prefix_pairs", "iter_ordered_pairs",
+			"iter_from_checks", "iter_from_pairs", "iter_from_after_reopen", "iter_from_existing_key", "iter_from_proper_prefix_of_key", "iter_from_between_neighbours",
+			"iter_from_below_first", "iter_from_above_last", "iter_from_extension_of_key", "iter_from_empty_start", "iter_from_on_empty_trie",
 			"histories_random_nontrivial", "histories_exh_nontrivial", "get_hits", "get_absent", "overwrites"},
 	})
 }
